@@ -91,7 +91,7 @@ uint64_t w_obs_hash(void)
 
 void w_obs_clear(void)
 {
-    OBS.ntx = 0; OBS.tx_lost = 0; OBS.ntxfail = 0; OBS.ncb = 0; OBS.cb_lost = 0; OBS.fatal = 0; OBS.nvm_calls = 0;
+    OBS.ntx = 0; OBS.tx_lost = 0; OBS.ntxfail = 0; OBS.nrefused = 0; OBS.ncb = 0; OBS.cb_lost = 0; OBS.fatal = 0; OBS.nvm_calls = 0;
 }
 
 void w_reset(uint32_t freq)
@@ -141,6 +141,10 @@ static int16_t DCanSend(CO_IF_FRM *frm)
     memset(&f, 0, sizeof f);
     f.id = frm->Identifier; f.dlc = frm->DLC;
     for (int i = 0; i < 8 && i < frm->DLC; i++) f.d[i] = frm->Data[i];
+    if (DRV.send_refuse_nth > 0 && --DRV.send_refuse_nth == 0) {
+        if (OBS.nrefused < 4) { OBS.refused_pos[OBS.nrefused] = OBS.ntx; OBS.refused[OBS.nrefused] = f; }
+        OBS.nrefused++; OBS.ntxfail++; return 0;
+    }
     if (OBS.ntx < W_MAX_TX) OBS.tx[OBS.ntx] = f; else OBS.tx_lost++;
     OBS.ntx++;
     if (w_send_hook) w_send_hook(&f);
